@@ -214,13 +214,13 @@ func generate(g *core.Gen) {
 	exh(3, g.N(3, 10))
 	exh(4, g.N(4, 20))
 	exh(5, g.N(2, 12))
-	exh(6, g.N(0, 3))
+	exh(6, g.N(0, 6))
 	if g.Thorough() {
-		exh(7, 1)
+		exh(7, 2)
 	}
 
 	// ---- random trees, random orders
-	for i, n := 0, g.N(140, 800); i < n; i++ {
+	for i, n := 0, g.N(140, 2000); i < n; i++ {
 		size := 4 + r.Intn(g.N(28, 60))
 		if r.Chance(1, 8) {
 			size = g.N(40, 100) + r.Intn(g.N(21, 300))
@@ -238,7 +238,7 @@ func generate(g *core.Gen) {
 	}
 
 	// ---- children strictly before parents (everything goes through the orphan pool)
-	for i, n := 0, g.N(40, 300); i < n; i++ {
+	for i, n := 0, g.N(40, 600); i < n; i++ {
 		size := 3 + r.Intn(g.N(25, 90))
 		tree := relabel(r, randTree(r, size, r.Intn(3), int(r.Pick(0, 100, 250))))
 		ids := topo(tree)
@@ -249,7 +249,7 @@ func generate(g *core.Gen) {
 	}
 
 	// ---- long competing chains with an invalid block deep inside (failed multi-block reorganisations)
-	for i, n := 0, g.N(40, 300); i < n; i++ {
+	for i, n := 0, g.N(40, 600); i < n; i++ {
 		var tree []blk
 		id := 0
 		nb := 2 + r.Intn(3)
@@ -299,7 +299,7 @@ func generate(g *core.Gen) {
 	}
 
 	// ---- headers-first: every header in order (as netsync does), then the blocks in random order
-	for i, n := 0, g.N(30, 250); i < n; i++ {
+	for i, n := 0, g.N(30, 600); i < n; i++ {
 		size := 4 + r.Intn(g.N(30, 120))
 		tree := relabel(r, randTree(r, size, r.Intn(3), int(r.Pick(0, 80, 200))))
 		var ops []op
@@ -376,7 +376,7 @@ func pacedTree(r *core.Rand, tree []blk) []blk {
 // block), so that "most cumulative work" and "longest" disagree.
 func genVariedWork(g *core.Gen) {
 	r := g.R
-	for i, n := 0, g.N(70, 400); i < n; i++ {
+	for i, n := 0, g.N(70, 1000); i < n; i++ {
 		size := 5 + r.Intn(g.N(22, 60))
 		tree := pacedTree(r, randTree(r, size, int(r.Pick(1, 1, 0)), int(r.Pick(0, 0, 80, 200))))
 		ops := randomOrder(r, tree, int(r.Pick(0, 100)), int(r.Pick(0, 0, 200)), int(r.Pick(40, 80, 95, 100)))
@@ -411,7 +411,7 @@ func genInvRec(g *core.Gen) {
 		tree []blk
 		ops  []op
 	}
-	for i, n := 0, g.N(180, 1500); i < n; i++ {
+	for i, n := 0, g.N(180, 3000); i < n; i++ {
 		size := 3 + r.Intn(g.N(14, 40))
 		tree := relabel(r, randTree(r, size, int(r.Pick(0, 1, 1, 2)), int(r.Pick(0, 0, 100))))
 		ops := randomOrder(r, tree, 0, int(r.Pick(0, 0, 0, 100)), int(r.Pick(90, 100, 100)))
